@@ -153,7 +153,7 @@ Print Assumptions supply_eq_tokens_eq_balances.
     and after the class changed hands. *)
 Theorem owner_never_locked_out :
   forall (s : state) (c : cid) (t : tid) (o : addr),
-    Reachable s -> get_owner s c t = Some o -> denom_ok c = true -> token_ok t = true ->
+    Reachable s -> get_owner s c t = Some o ->
     (exists s', exec_msg s (Burn o c t) = Some s')
     /\ (forall r, 0 <= r -> exists s', exec_msg s (Transfer o c t dnm dnm dnm dnm r) = Some s').
 Proof. exact owner_can_act. Qed.
